@@ -6,6 +6,8 @@ from symx.dlog import DlogDomain, Dlog, member_element
 from symx.edabs import EdAbs, AbsPt
 
 PID = "C13"
+TECHNIQUE = 'the real element classes in the exponent domain (integer groups) and over abstract points (Ed25519); z3 decides the group laws for symbolic elements and unbounded integer scalars'
+LEVEL_NOTE = 'G1 exponent laws; K1-K5 kernel contracts (C12); E = Z_L x Z_8'
 EXPLANATION = (
     "Integer groups: the real _Element methods and IntegerGroup._add/_scalarmult/_element_to_bytes/bytes_to_element/"
     "_is_member (shipped I1024, I2048, I3072 objects and IntegerGroup(23,11,2)) run in the exponent domain: elements "
